@@ -88,6 +88,8 @@ def gen_cases(ctx):
                        threads=[dict(kind='client', src=gen_src(0, n, fail_at), ret=900, batch=batch)])
   # ---- init_generator whose lazy object cannot be turned into a generator (constructor raises / not iterable)
   yield from gen_failed_init(ctx)
+  # ---- windows between an unlocked look at a flag / attribute and the lock: everybody else runs inside the gap
+  yield from gen_windows(ctx)
   # ---- re-initialisation / stop / shutdown at a scheduler-chosen point
   m = 3000 if ctx.quick else 40000
   for _ in range(m):
@@ -172,6 +174,53 @@ def gen_failed_init(ctx):
     yield dict(prefetch=rng.choice([1, 2, 3]), threads=_renumber(ths), sched=sched_spec(rng))
 
 
+def gen_windows(ctx):
+  """WINDOW schedules (lib_prefetch.hold_chooser): one request is taken up to the lock acquisition that follows its
+  unlocked check — `_init_iterator`: `if self._shutdown_requested` … unpickle … `with self._generator_lock`;
+  `_next_batch`: `generator = self._generator` … `get_batch`'s dequeue lock; `_stop_prefetch` / `_request_shutdown`: the
+  lock itself — and is held there while every other thread (a shutdown with the server thread's callback, a
+  re-initialisation, a stop, a client loop) runs until nothing else can; then it resumes.  What precedes the request
+  (`lead` random steps of the others: nothing / a generator installed / partly consumed / exhausted) is drawn too."""
+  rng = ctx.rng
+  reps = 2 if ctx.quick else 12
+  def spec(hold, at):
+    return dict(kind='hold', seed=rng.randrange(10**9), hold=hold, at=at, lead=rng.choice([0, 0, 3, 8, 15, 25, 40]))
+  bases = [[], [dict(kind='client', n=3, batch=1)], [dict(kind='client', n=4, batch=2)], [dict(kind='init', n=2)],
+           [dict(kind='init', n=0)], [dict(kind='client', n=2, fail_at=1, batch=1)]]
+  # -- init_generator (bare request / client loop; healthy / failing construction) held at the generator lock
+  helds = [dict(kind='init', n=3), dict(kind='init', n=0), dict(kind='client', n=2, batch=1),
+           dict(kind='init', build='raise'), dict(kind='client', build='noniter', batch=1)]
+  rivals = [[dict(kind='shutdown')], [dict(kind='shutdown'), dict(kind='next', batch=1)], [dict(kind='stop', fatal=False)],
+            [dict(kind='init', n=1)], []]
+  for base in bases:
+    for held in helds:
+      for rv in rivals:
+        for prefetch in (1, 2):
+          for _ in range(reps if rv and rv[0]['kind'] == 'shutdown' else 1):
+            ths = _renumber(copy.deepcopy(base) + [copy.deepcopy(held)] + copy.deepcopy(rv))
+            ctx.count('kind', 'window:init' + ('+shutdown' if rv and rv[0]['kind'] == 'shutdown' else ''))
+            yield dict(prefetch=prefetch, threads=ths, sched=spec(len(base) + 1, 'acquire gen'))
+  # -- next_batch held between reading self._generator and get_batch's dequeue lock
+  for base in ([dict(kind='init', n=3)], [dict(kind='init', n=1)], [dict(kind='client', n=4, batch=1)]):
+    for rv in ([dict(kind='init', n=2)], [dict(kind='stop', fatal=True)], [dict(kind='shutdown')],
+               [dict(kind='init', build='raise')], [dict(kind='init', n=1), dict(kind='shutdown')]):
+      for prefetch in (1, 2):
+        for _ in range(reps):
+          ths = _renumber(copy.deepcopy(base) + [dict(kind='next', batch=rng.choice([1, 2, 3]))] + copy.deepcopy(rv))
+          ctx.count('kind', 'window:next')
+          sp = spec(len(base) + 1, 'acquire cond1#')
+          sp['lead'] = rng.choice([8, 12, 20, 30, 45])      # the generator has to exist when the request arrives
+          yield dict(prefetch=prefetch, threads=ths, sched=sp)
+  # -- stop_prefetch / shutdown held at their lock
+  for base in ([dict(kind='client', n=3, batch=1)], [dict(kind='init', n=2)]):
+    for held, at in ((dict(kind='stop', fatal=False), 'acquire gen'), (dict(kind='shutdown'), 'acquire shut')):
+      for rv in ([dict(kind='init', n=1)], [dict(kind='shutdown')], [dict(kind='next', batch=2)]):
+        for _ in range(reps):
+          ths = _renumber(copy.deepcopy(base) + [copy.deepcopy(held)] + copy.deepcopy(rv))
+          ctx.count('kind', 'window:' + held['kind'])
+          yield dict(prefetch=rng.choice([1, 2]), threads=ths, sched=spec(len(base) + 1, at))
+
+
 def run_impl(case):
   return lp.run_real(case)
 
@@ -214,6 +263,39 @@ def _newest_queue(obs):
   return max(ks) if ks else None
 
 
+def _after_shutdown(case, obs):
+  """read off the TRACE of synchronisation operations (the order of events) and the requests' answers only"""
+  trace = obs.get('trace') or []
+  ths, n = case['threads'], len(case['threads'])
+  done_at = next((k for k, (tid, lbl) in enumerate(trace) if tid == lp.MAIN and lbl == 'release gen'), None)
+  if done_at is None:
+    return None
+  for k in range(done_at + 1, len(trace)):
+    tid, lbl = trace[k]
+    if lbl == 'thread_start thread':
+      return (f'request thread {tid} ({ths[tid - 1]["kind"] if 1 <= tid <= n else "?"}) installed a generator and started its '
+              f'prefetch thread at step {k}, AFTER the server\'s shutdown callback had completed (step {done_at}): nothing will '
+              f'ever stop that generator')
+  for i, p in enumerate(ths):
+    if p['kind'] not in ('init', 'client'):
+      continue
+    took = next((k for k, (tid, lbl) in enumerate(trace) if tid == i + 1 and lbl == 'acquire gen'), None)
+    if took is None or took < done_at:
+      continue
+    o = obs['threads'][i]
+    if not o['done']:
+      continue     # reported by the blocked-thread clause
+    if o.get('outcome') != {'raise': 'TimeoutError'}:
+      return (f'{p["kind"]} request {i + 1} took the generator lock at step {took}, after the shutdown callback had completed '
+              f'(step {done_at}), and was answered with {o.get("outcome")} instead of the shutdown TimeoutError')
+    if o.get('yielded'):
+      return f'client {i + 1} yielded {o["yielded"]} from a server that had shut down before its generator could be installed'
+  if any(not pr['done'] for pr in obs.get('producers', [])):
+    return (f'a prefetch thread is still alive after the shutdown callback completed at step {done_at}: {obs["producers"]} '
+            f'(left: {obs["left"]})')
+  return None
+
+
 def oracle(case, obs):
   gens = _gens(case)
   ths, n = case['threads'], len(case['threads'])
@@ -235,6 +317,13 @@ def oracle(case, obs):
       continue
     if tid == lp.MAIN:
       return f'the server thread stays blocked at "{label}" after the shutdown request (left: {obs["left"]})'
+  # -- shutting down stops the generator FOR GOOD: once the server thread's shutdown callback (the locked stop inside
+  #    `_shutdown_server`) has completed, no generator is installed any more — an init_generator request that gets the
+  #    generator lock afterwards (it passed its entry check earlier and was delayed: slow unpickling, waiting for the
+  #    lock) is answered with the shutdown TimeoutError, starts no prefetch thread, and no prefetch thread survives
+  w = _after_shutdown(case, obs)
+  if w is not None:
+    return w
   # -- an init_generator whose lazy object cannot be turned into a generator FAILS (with the constructor's exception /
   #    a TypeError; with the shutdown time-out when the server is shutting down; with a transport error when it has
   #    stopped), its client loop yields nothing, and afterwards the server answers as if that call had never installed
@@ -362,9 +451,6 @@ def _cover(case, obs):
   ths = case.get('threads')
   if not ths or not any(_bad_build(p) for p in ths) or 'trace' not in obs:
     return
-  w = oracle(case, obs)
-  if w is not None and finding(case, w) is None:
-    _COV['(runs that failed the oracle)'] += 1
   trace = obs['trace']
   first, last, ops, where = {}, {}, collections.defaultdict(list), collections.defaultdict(dict)
   for k, (tid, lbl) in enumerate(trace):
@@ -402,8 +488,57 @@ def _cover(case, obs):
         _COV['failed-init: it stopped a live generator, a request is issued after it'] += 1
 
 
+W_INIT_AFTER = ('window: an init_generator passed its entry check of the shutdown flag BEFORE the flag was set and took the '
+                'generator lock AFTER the shutdown callback had completed')
+W_INIT_BETWEEN = ('window: an init_generator passed its entry check before the shutdown flag was set and took the generator lock '
+                  'after it was set, before the shutdown callback')
+W_NEXT_REPLACED = ('window: a next_batch request read self._generator, the generator was stopped / replaced / shut down, then the '
+                   'request entered get_batch on the old queue')
+W_INIT_LATE = 'window: an init_generator arrived after the shutdown callback had completed (entry check answers)'
+PROMISED += [W_INIT_AFTER, W_INIT_BETWEEN, W_NEXT_REPLACED, W_INIT_LATE]
+
+
+def _cover_windows(case, obs):
+  """which check-to-lock windows a run went through: from the ORDER of synchronisation operations only"""
+  ths = case.get('threads')
+  trace = obs.get('trace') if isinstance(obs, dict) else None
+  if not ths or not trace:
+    return
+  where = collections.defaultdict(dict)
+  for k, (tid, lbl) in enumerate(trace):
+    where[tid].setdefault(lbl, k)
+    if '#' in lbl:
+      where[tid].setdefault('#first', k)
+  flag = min((where[j + 1]['acquire shut'] for j, q in enumerate(ths)
+              if q['kind'] == 'shutdown' and 'acquire shut' in where[j + 1]), default=None)
+  cb_start, cb_end = where[lp.MAIN].get('acquire gen'), where[lp.MAIN].get('release gen')
+  for i, p in enumerate(ths):
+    w = where[i + 1]
+    if p['kind'] in ('init', 'client') and 'start' in w:
+      took = w.get('acquire gen')
+      if flag is not None and w['start'] < flag and took is not None:
+        if cb_end is not None and took > cb_end:
+          _COV[W_INIT_AFTER] += 1
+        elif took > flag and (cb_start is None or took < cb_start):
+          _COV[W_INIT_BETWEEN] += 1
+      if cb_end is not None and w['start'] > cb_end:
+        _COV[W_INIT_LATE] += 1
+    if p['kind'] == 'next' and 'start' in w and '#first' in w:
+      # somebody else's locked stop (maybe_stop takes the queue's states lock) ran entirely inside the gap
+      others = [k for k, (tid, lbl) in enumerate(trace)
+                if w['start'] < k < w['#first'] and tid != i + 1 and lbl.startswith('release gen')]
+      if others:
+        _COV[W_NEXT_REPLACED] += 1
+
+
 def nontrivial(case, obs):
+  ths = case.get('threads') or []
+  if 'trace' in obs and (any(_bad_build(p) for p in ths) or case.get('sched', {}).get('kind') == 'hold'):
+    w = oracle(case, obs)
+    if w is not None and finding(case, w) is None:
+      _COV['(runs that failed the oracle)'] += 1      # the promised arms are enforced on runs that pass the oracle only
   _cover(case, obs)
+  _cover_windows(case, obs)
   ch = obs['choices']
   return sum(1 for a, b in zip(ch, ch[1:]) if a != b) >= 10
 
